@@ -200,14 +200,17 @@ def registry() -> Dict[str, Check]:
     reg["C12"] = Check(
         "C12", {"C12"},
         [Batch("F-scripted", gen_f.gen_fund, 15000, 150000, driver="F", budget_s=30.0, profile="scripted"),
-         Batch("F-real", gen_f.gen_fund, 6000, 60000, driver="F", budget_s=30.0, profile="real")],
+         Batch("F-real", gen_f.gen_fund, 6000, 60000, driver="F", budget_s=30.0, profile="real"),
+         Batch("F-moments", gen_f.gen_moments, 16, 320, driver="F", budget_s=120.0, profile="moments"),
+         Batch("A-shocks", gen_a.gen_rules, 1500, 20000, driver="A", budget_s=30.0, profile="shocks")],
+        plugins=lambda: [oracles_rules.ShockPlugin(label="C12")],
         nontrivial=lambda s: s["probes"].get("scripted_covariance_checked", 0) + s["probes"].get("zero_vol_step", 0) > 0
         and s["stats"].get("f_steps", 0) >= 20,
         rule="Driver-F histories: 1-5 markets, random positive-definite correlations, generation chunks 2-9 or 100, "
              "parameter changes and shocks at the current time; non-trivial = the covariance law was checked through the "
              "randomness seam or an exact zero-volatility path was followed, over >= 20 steps.",
         need_probes=["scripted_covariance_checked", "scripted_covariance_with_correlation", "scripted_linearity_checked",
-                     "zero_vol_step", "generation_chunk_boundary_crossed", "change_shock", "change_drift", "change_vol",
+                     "zero_vol_step", "moments_checked", "fund_shock_on_zero_vol", "generation_chunk_boundary_crossed", "change_shock", "change_drift", "change_vol",
                      "change_corr", "change_uncorr"],
     )
     reg["C20"] = Check(
